@@ -15,52 +15,12 @@ variable {g : Graph} {ends : List Nat}
 /-- **sort_perm** (one level).  `Network.sort` only reorders the path: the items after sorting are a
 permutation of the items before ("contains exactly the given units" is preserved by sorting). -/
 theorem sort_perm {path : List Item} {r : List Nat} {o : SortOut} (h : sortLevel g ends path r = .ok o) :
-    o.path.Perm path := by
-  unfold sortLevel at h
-  split at h
-  · exact absurd h (by simp)
-  · rename_i ps hps
-    injection h with h; subst h
-    simp only
-    rw [← (mkPSs_spec hps).1]
-    exact (bubble_perm _ _ ps r).map _
+    o.path.Perm path := sortLevel_perm h
 
-mutual
 /-- **sort_perm** (whole nested network).  The units of the sorted network, flattened, are a
 permutation of the units of the network handed to `sort`, at every nesting depth. -/
-theorem sortItem_flat_perm : ∀ (it : Item) {it' : Item} {w : Nat}, sortItem g ends it = .ok (it', w) → it'.flat.Perm it.flat
-  | .unit u, it', w, h => by
-    simp only [sortItem] at h
-    injection h with h; injection h with h1 h2; subst h1; exact List.Perm.refl _
-  | .net p r, it', w, h => by
-    unfold sortItem at h
-    split at h
-    · exact absurd h (by simp)
-    · rename_i p' w' hp
-      split at h
-      · exact absurd h (by simp)
-      · rename_i o ho
-        injection h with h; injection h with h1 h2; subst h1
-        have h1 := sortList_flat_perm p hp
-        have h2 := sort_perm ho
-        simp only [Item.flat]
-        exact (flatList_perm h2).trans h1
-theorem sortList_flat_perm : ∀ (p : List Item) {p' : List Item} {w : Nat}, sortList g ends p = .ok (p', w) → (flatList p').Perm (flatList p)
-  | [], p', w, h => by
-    simp only [sortList] at h
-    injection h with h; injection h with h1 h2; subst h1; exact List.Perm.refl _
-  | i :: is, p', w, h => by
-    unfold sortList at h
-    split at h
-    · exact absurd h (by simp)
-    · rename_i i' w1 hi
-      split at h
-      · exact absurd h (by simp)
-      · rename_i is' w2 his
-        injection h with h; injection h with h1 h2; subst h1
-        simp only [flatList]
-        exact (sortItem_flat_perm i hi).append (sortList_flat_perm is his)
-end
+theorem sortItem_flat_perm (it : Item) {it' : Item} {w : Nat} (h : sortItem g ends it = .ok (it', w)) :
+    it'.flat.Perm it.flat := sortItem_flat_perm_aux it h
 
 /-- **sort_clean_topological** (general form, any mix of units and sub-networks).  If `sort` leaves
 without the "network path could not be determined" warning, then whenever a path item is downstream
@@ -101,20 +61,6 @@ theorem sort_clean_topological {path : List Item} {r : List Nat} {o : SortOut}
   simp only [Item.flat, List.mem_singleton] at hm hu hm' hu'
   subst hm hu hm' hu'
   exact hac _ (Relation.TransGen.trans r1 r2)
-
-/-- **dag_no_recycle** (general form).  If no two path items are mutually reachable, `sort` adds
-no recycle. -/
-theorem dag_no_recycle_items {path : List Item} {r : List Nat} {o : SortOut}
-    (h : sortLevel g ends path r = .ok o)
-    (hno : ∀ a b, a ∈ path → b ∈ path → ¬ (ItemDown g ends a b ∧ ItemDown g ends b a)) :
-    o.recycle = r := by
-  obtain ⟨ps, e0, hgood, _, e2, _⟩ := sortLevel_inv h
-  rw [e2]
-  apply bubble_recycle
-  intro p q hp hq ⟨d1, d2⟩
-  refine hno p.item q.item ?_ ?_ ⟨(downFrom_iff (hgood p hp) (hgood q hq)).mp d1, (downFrom_iff (hgood q hq) (hgood p hp)).mp d2⟩
-  · rw [← e0]; exact List.mem_map_of_mem hp
-  · rw [← e0]; exact List.mem_map_of_mem hq
 
 /-- **dag_no_recycle**.  On an acyclic graph (no unit reaches itself) `sort` adds no recycle to a
 path of units, whatever their order. -/
@@ -282,37 +228,22 @@ theorem sort_dag (hg : g.SinksOK) (hac : ∀ u, ¬ Reach g ends u u) (path : Lis
 
 /-! ## The property's observable and the checker -/
 
-/-- a stream runs from unit `a` to unit `b` -/
-def FlowEdge (g : Graph) (a b : Nat) : Prop := Edge g [] a b
-
-/-- the flowsheet has a cycle -/
-def Cyclic (g : Graph) : Prop := ∃ u, Reach g [] u u
-
-/-- `a` and `b` lie inside a common recycle loop: a (sub-)network that carries a recycle contains both -/
-def InCommonLoop (p : Item) (a b : Nat) : Prop :=
-  ∃ q r, SubNet p q r ∧ r ≠ [] ∧ a ∈ flatList q ∧ b ∈ flatList q
-
-/-- position in the flattened path (first occurrence) -/
-def pos (p : Item) (u : Nat) : Nat := p.flat.idxOf u
-
 /-- The statement of C19 for a flowsheet `g` (units `0..n-1`), the nested path `p` of the network
-built from it, and the reported recycle streams `R`. -/
+built from it, and the reported recycle streams `R` (`Network.get_all_recycles()`). -/
 structure Holds (g : Graph) (p : Item) (R : List Nat) : Prop where
-  /-- the path contains exactly the given units -/
+  /-- the path contains exactly the given units … -/
   exact : ∀ u, u ∈ p.flat ↔ u < g.n
-  /-- no cycle: every unit once, after all units that feed it, no recycle reported -/
-  acyclic : ¬ Cyclic g → p.flat.Nodup ∧ (∀ a b, FlowEdge g a b → pos p a < pos p b) ∧ R = []
-  /-- cycles: a recycle is reported and every stream against the path order is inside a common loop -/
-  cyclic : Cyclic g → R ≠ [] ∧ ∀ a b, FlowEdge g a b → ¬ pos p a < pos p b → InCommonLoop p a b
-
-theorem forward_acyclic {p : Item} (h : ∀ a b, FlowEdge g a b → pos p a < pos p b) : ¬ Cyclic g := by
-  rintro ⟨u, hu⟩
-  have : ∀ a b, Reach g [] a b → pos p a < pos p b := by
-    intro a b r
-    induction r with
-    | single e => exact h _ _ e
-    | tail _ e ih => exact Nat.lt_trans ih (h _ _ e)
-  exact Nat.lt_irrefl _ (this u u hu)
+  /-- … each of them once (in both halves) -/
+  once : p.flat.Nodup
+  /-- the reported recycles are the recycles the (sub-)networks carry -/
+  reported : ∀ s, s ∈ R ↔ s ∈ allRecycles p
+  /-- no cycle: every unit after all units that feed it, no recycle reported -/
+  acyclic : ¬ Cyclic g → (∀ a b, FlowEdge g a b → pos p a < pos p b) ∧ R = []
+  /-- cycles: a recycle is reported, the reported recycles cut every cycle (no unit reaches itself once
+  they are removed), and every stream against the path order lies on a cycle (its sink reaches its
+  source) whose two units are inside a common recycle loop -/
+  cyclic : Cyclic g → R ≠ [] ∧ (∀ u, ¬ Reach g R u u) ∧
+    ∀ a b, FlowEdge g a b → ¬ pos p a < pos p b → Reach g [] b a ∧ InCommonLoop p a b
 
 /-- **validNetwork_sound**.  Whenever the executable checker accepts `(g, p, R)`, the property's
 statement holds for it.  (The Python twin of the checker is the oracle on the real `Network`; the
@@ -325,51 +256,62 @@ theorem validNetwork_sound {p : Item} {R : List Nat} (hlen : g.outs.length ≤ g
   simp only at hv
   split at hv
   · exact absurd hv (by simp)
-  · rename_i hu
-    simp only [Bool.not_eq_true, Bool.not_eq_false', Bool.and_eq_true, List.all_eq_true, decide_eq_true_eq] at hu
-    have hexact : ∀ u, u ∈ p.flat ↔ u < g.n :=
-      fun u => ⟨fun hm => hu.1 u hm, fun hl => List.contains_iff_mem.mp (hu.2 u (List.mem_range.mpr hl))⟩
-    have hedge : ∀ a b, FlowEdge g a b → (a, b) ∈ edgesOf g :=
-      fun a b e => mem_edgesOf (Nat.lt_of_lt_of_le e.lt_outs_length hlen) e
+  rename_i hu
+  simp only [Bool.not_eq_true, Bool.not_eq_false', Bool.and_eq_true, List.all_eq_true, decide_eq_true_eq] at hu
+  have hexact : ∀ u, u ∈ p.flat ↔ u < g.n :=
+    fun u => ⟨fun hm => hu.1 u hm, fun hl => List.contains_iff_mem.mp (hu.2 u (List.mem_range.mpr hl))⟩
+  have hedge : ∀ a b, FlowEdge g a b → (a, b) ∈ edgesOf g :=
+    fun a b e => mem_edgesOf (Nat.lt_of_lt_of_le e.lt_outs_length hlen) e
+  split at hv
+  · exact absurd hv (by simp)
+  rename_i hnd
+  have honce : p.flat.Nodup := by
+    have : nodupB p.flat = true := by simpa using hnd
+    exact (nodupB_iff _).mp this
+  split at hv
+  · exact absurd hv (by simp)
+  rename_i hrs
+  simp only [Bool.not_eq_true, Bool.not_eq_false', Bool.and_eq_true, List.all_eq_true] at hrs
+  have hrep : ∀ s, s ∈ R ↔ s ∈ allRecycles p :=
+    fun s => ⟨fun hm => List.contains_iff_mem.mp (hrs.1 s hm), fun hm => List.contains_iff_mem.mp (hrs.2 s hm)⟩
+  split at hv
+  · rename_i hc
+    have hcyc : Cyclic g := hasCycle_sound hc
     split at hv
-    · rename_i hc
-      have hcyc : Cyclic g := hasCycle_sound hc
-      split at hv
-      · exact absurd hv (by simp)
-      · rename_i hR
-        split at hv
-        · rename_i hall
-          refine ⟨hexact, fun hn => absurd hcyc hn, fun _ => ⟨?_, ?_⟩⟩
-          · intro e; exact hR (by simp [e])
-          · intro a b e hnlt
-            have := List.all_eq_true.mp hall (a, b) (hedge a b e)
-            simp only [Bool.or_eq_true, decide_eq_true_eq, List.any_eq_true, Bool.and_eq_true] at this
-            rcases this with h | ⟨l, hl, ha, hb⟩
-            · exact absurd h hnlt
-            · obtain ⟨q, r, hs, hne, rfl⟩ := (mem_loops p l).mp hl
-              exact ⟨q, r, hs, hne, List.contains_iff_mem.mp ha, List.contains_iff_mem.mp hb⟩
-        · exact absurd hv (by simp)
-    · split at hv
-      · exact absurd hv (by simp)
-      · rename_i hnd
-        split at hv
-        · exact absurd hv (by simp)
-        · rename_i hfw
-          split at hv
-          · exact absurd hv (by simp)
-          · rename_i hR
-            have hforward : ∀ a b, FlowEdge g a b → pos p a < pos p b := by
-              intro a b e
-              simp only [Bool.not_eq_true, Bool.not_eq_false'] at hfw
-              have := List.all_eq_true.mp hfw (a, b) (hedge a b e)
-              unfold pos
-              simpa using this
-            refine ⟨hexact, fun _ => ⟨?_, hforward, ?_⟩, fun hc => absurd hc (forward_acyclic hforward)⟩
-            · have : nodupB p.flat = true := by simpa using hnd
-              exact (nodupB_iff _).mp this
-            · cases R with
-              | nil => rfl
-              | cons _ _ => simp at hR
+    · exact absurd hv (by simp)
+    rename_i hR
+    split at hv
+    · exact absurd hv (by simp)
+    rename_i hcut
+    have hcut' : acyclicB g R = true := by simpa using hcut
+    split at hv
+    · rename_i hall
+      refine ⟨hexact, honce, hrep, fun hn => absurd hcyc hn, fun _ => ⟨?_, acyclic_of_acyclicB hcut', ?_⟩⟩
+      · intro e; exact hR (by simp [e])
+      · intro a b e hnlt
+        have := List.all_eq_true.mp hall (a, b) (hedge a b e)
+        simp only [Bool.or_eq_true, decide_eq_true_eq, List.any_eq_true, Bool.and_eq_true] at this
+        rcases this with h | ⟨hr, l, hl, ha, hb⟩
+        · exact absurd h hnlt
+        · obtain ⟨q, r, hs, hne, rfl⟩ := (mem_loops p l).mp hl
+          exact ⟨reachesB_sound hr, q, r, hs, hne, List.contains_iff_mem.mp ha, List.contains_iff_mem.mp hb⟩
+    · exact absurd hv (by simp)
+  · split at hv
+    · exact absurd hv (by simp)
+    rename_i hfw
+    split at hv
+    · exact absurd hv (by simp)
+    rename_i hR
+    have hforward : ∀ a b, FlowEdge g a b → pos p a < pos p b := by
+      intro a b e
+      simp only [Bool.not_eq_true, Bool.not_eq_false'] at hfw
+      have := List.all_eq_true.mp hfw (a, b) (hedge a b e)
+      unfold pos
+      simpa using this
+    refine ⟨hexact, honce, hrep, fun _ => ⟨hforward, ?_⟩, fun hc => absurd hc (forward_acyclic hforward)⟩
+    cases R with
+    | nil => rfl
+    | cons _ _ => simp at hR
 
 /-- **The acyclic half of C19, end to end for the sorting stage.**  Let `g` be an acyclic flowsheet and
 let the (unmodelled) joining machinery hand `Network.sort` a path that lists every given unit exactly
@@ -386,12 +328,14 @@ theorem sort_dag_holds (hg : g.SinksOK) (hlen : g.outs.length ≤ g.n)
   have hfl := flatList_perm hperm
   have hflat' : ∀ it ∈ o.path, ∃ u, it = .unit u := fun it hit => hflat it (hperm.mem_iff.mp hit)
   have hnd' : (flatList o.path).Nodup := hfl.symm.nodup hnd
-  refine ⟨o, ho, hstop, ?_, ?_, fun hc => absurd hc hac⟩
+  refine ⟨o, ho, hstop, ?_, by simpa [Item.flat] using hnd', ?_, ?_, fun hc => absurd hc hac⟩
   · intro u
     simp only [Item.flat]
     rw [hfl.mem_iff]; exact hexact u
+  · intro s
+    simp [allRecycles, allRecyclesList_units hflat', hrec]
   · intro _
-    refine ⟨by simpa [Item.flat] using hnd', ?_, hrec⟩
+    refine ⟨?_, hrec⟩
     intro a b e
     have ha : a ∈ flatList o.path := hfl.mem_iff.mpr ((hexact a).mpr (Nat.lt_of_lt_of_le e.lt_outs_length hlen))
     have hb : b ∈ flatList o.path := by
@@ -535,6 +479,14 @@ example : checkNetwork G1 (.net [.unit 1, .unit 0, .unit 2] []) [] = .order := b
 example : checkNetwork G1 (.net [.unit 0, .unit 2] []) [] = .units := by decide
 example : checkNetwork G3 (.net [.unit 0, .unit 1] []) [] = .noRecycle := by decide
 example : checkNetwork G1 (.net [.unit 0, .unit 1, .unit 2] [0]) [0] = .recycleOnDag := by decide
+
+/-- the strengthened cyclic clauses are live: a unit listed twice (outside and inside the loop), a
+reported "recycle" that is a product stream and cuts nothing, reported recycles that are not the ones the
+networks carry, and a unit outside the loop network placed before the loop that feeds it. -/
+example : checkNetwork G3 (.net [.unit 0, .net [.unit 0, .unit 1] [1]] []) [1] = .dup := by decide
+example : checkNetwork G3 (.net [.unit 0, .unit 1] [3]) [3] = .notCut := by decide
+example : checkNetwork G3 (.net [.unit 0, .unit 1] [1]) [0] = .recycleSet := by decide
+example : checkNetwork G3 (.net [.unit 1, .net [.unit 0] [1]] []) [1] = .backward := by decide
 
 example : feedOrder [1, 8, 0, 8, 3] = [1, 3, 4, 0, 2] := by decide
 
